@@ -678,6 +678,11 @@ func reportSetupFailures(t vkit.TB) {
 
 func check(t vkit.TB, c Cell) {
 	out, err := runCell(c)
+	for try := 0; err != nil && strings.Contains(err.Error(), "address already in use") && try < 40; try++ {
+		// no free loopback port at this instant (many short-lived listeners and connections on a busy machine)
+		time.Sleep(250 * time.Millisecond)
+		out, err = runCell(c)
+	}
 	if err != nil {
 		// a cell that cannot be set up is remembered and the enumeration goes on: a change to the code under test
 		// may break the set-up of some cells and the property in others (reported at the end of the test function)
